@@ -184,8 +184,9 @@ pub fn execute_normal(cpu: &mut Z80, bus: &mut impl Z80Bus, opcode: Opcode, pref
                 U1::N0 => {
                     let addr = cpu.fetch_word(bus, 3);
                     bus.write(addr, cpu.regs.get_acc(), 3);
-                    cpu.regs
-                        .set_mem_ptr(addr.wrapping_add(1) | (cpu.regs.get_acc() as u16) << 8);
+                    cpu.regs.set_mem_ptr(
+                        (addr.wrapping_add(1) & 0xff) | ((cpu.regs.get_acc() as u16) << 8),
+                    );
                 }
                 // LD A, (BC) // 4 + 3 = 7 clocks
                 // [0b00001010] : 0x0A
@@ -658,7 +659,7 @@ pub fn execute_normal(cpu: &mut Z80, bus: &mut impl Z80Bus, opcode: Opcode, pref
                     // write Acc to port A*256 + operand
                     bus.write_io(((acc as u16) << 8) | data as u16, acc);
                     cpu.regs
-                        .set_mem_ptr((data as u16).wrapping_add(1) | (acc as u16) << 8);
+                        .set_mem_ptr(((data as u16).wrapping_add(1) & 0xff) | ((acc as u16) << 8));
                 }
                 // IN A, (n)
                 // [0b11011011] : DB
